@@ -280,6 +280,17 @@ impl<Key> CacheWeight<Key>
     }
 }
 
+#[cfg(cached_verif)]
+impl<Key> CacheWeight<Key>
+    where Key: Hash + Eq + Send + Sync + Clone + 'static, {
+    /// (key id, key, key hash, charged weight) of every charged id. Simulation harness only.
+    pub(crate) fn verif_snapshot(&self) -> Vec<(KeyId, Key, KeyHash, Weight)> {
+        self.key_weights.iter().map(|pair| {
+            (*pair.key(), pair.value().key.clone(), pair.value().key_hash, pair.value().weight)
+        }).collect()
+    }
+}
+
 #[cfg(test)]
 mod tests {
     use std::sync::Arc;
